@@ -74,7 +74,7 @@ PACKS = {
     # error objects
     "errors": [
         "C10.rule_discipline", "C10.rule_errors_are_syntax_errors", "C10.rule_expected", "C10.rule_render", "C10.rule_eof",
-        "C10.rule_context_line",
+        "C10.rule_context_line", "C10.rule_zero_is_a_position",
     ],
     # grammar files, imports, qualified names
     "imports": [
